@@ -838,6 +838,16 @@ func (m *Machine) execStmt(s ir.Stmt, sc *Scope, fr *frame) flow {
 		fr.line = x.Line
 		m.step()
 		fn, args := m.evalCall(x.Fn, "", x.Args, sc, fr)
+		switch f := fn.(type) {
+		case *Closure, *Builtin:
+		case *Table:
+			if f.Meta == nil || f.Meta.Get("__call") == nil {
+				m.rtError("attempt to call a table value")
+			}
+		default:
+			// the error is raised while the calling frame still exists
+			m.rtError("attempt to call a " + typeName(fn) + " value")
+		}
 		return flow{c: ctlReturn, label: "tail", vals: append([]Value{fn}, args...)}
 	default:
 		panic(fmt.Sprintf("model: unknown stmt %T", s))
@@ -1167,4 +1177,117 @@ func (t *Table) SortedKeys() []string {
 	}
 	sort.Strings(ks)
 	return ks
+}
+
+// ---- sessions: a host-side scheduler drives model coroutines (cosched driver A) ----
+
+// Session keeps a machine alive after the chunk has run, so that a host-side
+// schedule can create and resume coroutines over the chunk's global functions.
+type Session struct {
+	m   *Machine
+	cos []*Coroutine
+}
+
+// SessionResult is what one host-side resume returned.
+type SessionResult struct {
+	State string // yield | ok | error | refused
+	Vals  []string
+}
+
+// RunSchedule runs the chunk and then a host-side schedule. step i resumes the
+// coroutine over global function fn[i] (created on first use) with the given
+// numeric arguments. It returns the combined transcript (emits interleaved with
+// one line per schedule step). A fault (opt) may strike anywhere.
+func RunSchedule(p *ir.Program, bodies []string, sched [][]float64, schedWho []int, opt Options) *Result {
+	m := &Machine{ids: map[Value]int{}, faultKind: opt.FaultKind, faultAt: opt.FaultAt, StoreRTL: opt.StoreRTL, MaxSteps: opt.MaxSteps, chunkName: ir.ChunkName}
+	if opt.FaultAt == 0 {
+		m.faultKind = FaultNone
+	}
+	m.Globals = NewTable()
+	m.root = newScope(nil)
+	m.installPrelude()
+	m.main = &thread{}
+	m.cur = m.main
+	chunk := &Closure{Def: &ir.FuncDef{Body: p.Body}, Env: m.root, Fenv: m.Globals}
+	guard := func(f func()) (failed bool) {
+		defer func() {
+			if r := recover(); r != nil {
+				failed = true
+				switch e := r.(type) {
+				case *luaError:
+					m.TopError = m.render(e.val)
+				case cancelSignal:
+					m.TopError = "<cancelled>"
+				case runawaySignal:
+					m.Runaway = true
+				default:
+					panic(r)
+				}
+			}
+		}()
+		f()
+		return false
+	}
+	if guard(func() { m.callClosure(chunk, nil) }) {
+		m.Trace = append(m.Trace, "CHUNK-ERROR:"+m.TopError)
+		m.TopError = ""
+	}
+	cos := make([]*Coroutine, len(bodies))
+	for i, who := range schedWho {
+		if m.Runaway {
+			break
+		}
+		if cos[who] == nil {
+			cos[who] = m.newCoroutine(m.Globals.Get(bodies[who]), false)
+		}
+		co := cos[who]
+		args := make([]Value, len(sched[i]))
+		for j, a := range sched[i] {
+			args[j] = a
+		}
+		var line string
+		// a fault may also strike "in the scheduler" (between resumes): it is then a top-level error of that step
+		failed := guard(func() {
+			m.main.frames = m.main.frames[:0]
+			m.cur = m.main
+			ok, vals, refused := m.resume(co, args)
+			m.cur = m.main
+			switch {
+			case refused != "":
+				line = "refused"
+			case !ok:
+				line = "error:" + m.render(vals[0])
+			case co.status == "dead":
+				line = "ok:" + m.renderList(vals)
+			default:
+				line = "yield:" + m.renderList(vals)
+			}
+		})
+		if failed {
+			line = "toperror:" + m.TopError
+			m.TopError = ""
+			m.cur = m.main
+		}
+		var sts []string
+		for _, c := range cos {
+			if c == nil {
+				sts = append(sts, "-")
+			} else {
+				sts = append(sts, c.status)
+			}
+		}
+		m.Trace = append(m.Trace, fmt.Sprintf("S%d:co%d:%s|%s", i, who, line, strings.Join(sts, ",")))
+	}
+	m.killAll()
+	res := &Result{Trace: m.Trace, Steps: m.steps, HostSteps: m.hostSteps, Fired: m.fired, FiredCtx: m.FiredCtx, TopError: m.TopError, Cancelled: m.Cancelled, Runaway: m.Runaway}
+	res.TraceHash = HashTrace(m.Trace, m.TopError)
+	return res
+}
+
+func (m *Machine) renderList(vals []Value) string {
+	parts := make([]string, len(vals))
+	for i, v := range vals {
+		parts[i] = m.render(v)
+	}
+	return strings.Join(parts, ",")
 }
